@@ -201,8 +201,16 @@ def rule_digits(facts, rep):
         return None
 
     dig = {n: digit_of(v) for n, v in lets.items() if digit_of(v) is not None}
-    rep.check(sorted(dig.values()) == [0, 1, 2], "digits", b["path"], "three-decimal-digits", f"{dig}", loc(b))
-    byname = {v: k for k, v in dig.items()}
+
+    def dg(e):
+        """digit index of an expression: a local bound to (code / 10^k) % 10, or that expression written in place"""
+        n = hir.local_name(e)
+        if n in dig and hir.simp(e).get("k") == "local":
+            return dig[n]
+        return digit_of(e)
+    seen_digits = {dg(r["r"]) for n in hir.walk(b["hir"]) if n.get("k") == "assign" for r in [hir.simp(n["r"])]
+                   if r.get("k") == "bin" and r["op"] == "Add" and hir.lit_val(r["l"]) == 48}
+    rep.check(seen_digits == {0, 1, 2}, "digits", b["path"], "three-decimal-digits", f"{sorted(x for x in seen_digits if x is not None)}", loc(b))
     flags = {n for n, v in lets.items() if isinstance(hir.lit_val(v), bool)}
     paths = hir.enumerate_paths(b["hir"])
     n_ok = 0
@@ -223,7 +231,7 @@ def rule_digits(facts, rep):
                     r = hir.simp(n["r"])
                     d = None
                     if r.get("k") == "bin" and r["op"] == "Add" and hir.lit_val(r["l"]) == 48:
-                        d = dig.get(hir.local_name(r["r"]))
+                        d = dg(r["r"])
                     at_len = hir.place_str(hir.simp(n["l"])["i"]) == "self.len"
                     stored.append((d, at_len))
                 elif n.get("k") == "assignop" and hir.place_str(n["l"]) == "self.len":
@@ -235,13 +243,13 @@ def rule_digits(facts, rep):
                     node = hir.simp(node)
                     if node.get("k") == "local" and node["name"] in env:
                         return env[node["name"]]
-                    if node.get("k") == "bin" and node["op"] == "Ne" and hir.lit_val(node["r"]) == 0 and hir.local_name(node["l"]) in dig:
-                        key = dig[hir.local_name(node["l"])]
+                    if node.get("k") == "bin" and node["op"] == "Ne" and hir.lit_val(node["r"]) == 0 and dg(node["l"]) is not None:
+                        key = dg(node["l"])
                         return atoms.get(key, "free")
                     return None
                 # decide with free atoms: enumerate
-                free = sorted({dig[hir.local_name(hir.simp(a)["l"])] for a in hir.bool_atoms(t[1]) if hir.simp(a).get("k") == "bin"
-                               and hir.local_name(hir.simp(a)["l"]) in dig and dig[hir.local_name(hir.simp(a)["l"])] not in atoms})
+                free = sorted({dg(hir.simp(a)["l"]) for a in hir.bool_atoms(t[1]) if hir.simp(a).get("k") == "bin"
+                               and dg(hir.simp(a)["l"]) is not None and dg(hir.simp(a)["l"]) not in atoms})
                 sat = []
                 for vals in itertools.product((False, True), repeat=len(free)):
                     trial = dict(atoms)
@@ -251,8 +259,8 @@ def rule_digits(facts, rep):
                         node = hir.simp(node)
                         if node.get("k") == "local" and node["name"] in env:
                             return env[node["name"]]
-                        if node.get("k") == "bin" and node["op"] == "Ne" and hir.lit_val(node["r"]) == 0 and hir.local_name(node["l"]) in dig:
-                            return trial[dig[hir.local_name(node["l"])]]
+                        if node.get("k") == "bin" and node["op"] == "Ne" and hir.lit_val(node["r"]) == 0 and dg(node["l"]) is not None:
+                            return trial[dg(node["l"])]
                         return None
                     if hir.bool_eval(t[1], av2) == t[2]:
                         sat.append(trial)
